@@ -21,7 +21,7 @@ using namespace vp;
 
 extern "C" int opus_verif_arch_cap;   // XIPH_OPUS_VERIF hook: 0 = plain C .. 4 = AVX2, 255 = no cap
 
-const TargetInfo vp_info = {"c19_gain", 8, 160};
+const TargetInfo vp_info = {"c19_gain", 40, 220};
 
 static const int RATES[5] = {8000, 12000, 16000, 24000, 48000};
 static inline uint32_t bits(float f) { uint32_t u; memcpy(&u, &f, 4); return u; }
@@ -58,12 +58,12 @@ struct Pkt { std::vector<uint8_t> data; int samples_dec; /* at decoder rate */ i
 int vp_case(Choice& c, Report& rep) {
   const int FsE = c.pick(RATES), chE = 1 + c.irange(0, 1);
   const int FsD = c.chance(128) ? FsE : c.pick(RATES), chD = 1 + c.irange(0, 1);
+  int g0 = gen_gain(c);
+  int npk = 2 + c.irange(0, 10);
   EncCfg cfg[2];
   gen_enc(c, cfg[0], FsE, chE);
   int nenc = c.chance(90) ? 2 : 1;
   if (nenc == 2) { gen_enc(c, cfg[1], FsE, chE); cfg[1].family = cfg[0].family; cfg[1].amp = cfg[0].amp; cfg[1].seed = cfg[0].seed; }
-  int npk = 2 + c.irange(0, 10);
-  int g0 = gen_gain(c);
   int change_at = c.chance(64) ? 1 + c.irange(0, npk - 1) : -1;
   int g1 = change_at >= 0 ? gen_gain(c) : g0;
 
@@ -125,7 +125,7 @@ int vp_case(Choice& c, Report& rep) {
   std::vector<float> cand;
   bool cand_init = false;
   bool ever_loud = false;      // B's float output exceeded full scale at some point -> soft-clip memory of C may be non-zero
-  int last_cls = 0, n_trans = 0, n_tiny = 0;
+  int n_trans = 0, n_tiny = 0;
   bool may_celt = false, may_non = false, red = false;
   int n_lost = 0, n_fec = 0, n_sat16 = 0, n_big24 = 0, n_f5 = 0, n_nonsilent = 0, n_modes = 0, last_mode = -1;
   double maxabs_B = 0;
@@ -141,7 +141,6 @@ int vp_case(Choice& c, Report& rep) {
     if (action == 0 || (action == 1 && i + 1 >= pk.size())) { fs = pk[i].samples_dec; n_lost++; what = "lost"; }
     else if (action == 1) {
       // decode the loss from packet i+1's in-band FEC, then packet i+1 is decoded in the next iteration
-      HeapBuf<uint8_t>* nb = nullptr; (void)nb;
       fs = pk[i].samples_dec; fecflag = 1; n_fec++; what = "fec";
     } else { memcpy(pbuf.p, pk[i].data.data(), pk[i].data.size()); dptr = pbuf.p; dlen = (int)pk[i].data.size(); }
     HeapBuf<uint8_t> fbuf(fecflag ? pk[i + 1].data.size() : 0);
@@ -171,7 +170,6 @@ int vp_case(Choice& c, Report& rep) {
         if (tiny_frame) { may_celt = true; }
       }
     }
-    (void)last_cls;
     rep.note("pkt %zu %s toc=0x%02x len=%d fs=%d gain=%d%s", i, what, dptr ? dptr[0] : 0, dlen, fs, g, transition_possible ? " [mode class may change]" : "");
     int skip = 0;
     if (transition_possible && g != 0) { n_trans++; if (rep.exclude("F12")) skip = tiny_frame ? fs * chD : (FsD / 200) * chD; }
